@@ -358,7 +358,7 @@ def range_points():
 _ISI = re.compile(r'^isinstance\(ARG0, (.+)\)$')
 
 
-def dispatch_summary(f, cls):
+def dispatch_summary(f, cls, _depth=0):
     """The isinstance dispatch of a generator method f(self, type_, ...), read off its path summaries (so that an if/elif chain,
     several consecutive chains, early returns or tuple tests all look the same):
     [(classes tested true on the path, is_user_type true?, outcome kind, returned expression or None, path)] or None (too many paths)."""
@@ -374,11 +374,42 @@ def dispatch_summary(f, cls):
             if m and c[1]:
                 for part in m.group(1).strip('()').split(','):
                     part = part.strip()
-                    if part:
+                    # a class of the codec; a module-level tuple of classes (_VALUE_TYPES) groups classes for post-processing, it is not a dispatch case
+                    if part and re.match(r'^[A-Z][A-Za-z0-9]*$', part.split('.')[-1]) and not part.split('.')[-1].isupper():
                         names.add(part.split('.')[-1])
-            if c[1] and re.match(r'^(?:\w+\.)?is_user_type\(ARG0\)$', c[0]):
+            if c[1] and re.match(r'^(?:\w+\.)?\w*user_type\(ARG0\)$', c[0]):
                 user = True
         val = p.outcome[3] if p.outcome[0] == 'return' and len(p.outcome) > 3 else None
+        # the dispatch may live in a step of its own that is handed the type: `return self._format_builtin_type(type_, checker)`, or `lines = self.<step>(type_, ..)`
+        # earlier on the path -- its summary is combined with the conditions of this path
+        sub = None
+        if _depth < 2:
+            cands = [val] if isinstance(val, ast.Call) else []
+            cands += [ev[2] for ev in p.events if ev[0] == 'call' and len(ev) > 2 and isinstance(ev[2], ast.Call)]
+            for cv in cands:
+                if isinstance(cv.func, ast.Attribute) and isinstance(cv.func.value, ast.Name) and cv.func.value.id == 'self' and cv.args \
+                        and ast.unparse(cv.args[0]) in ('ARG0', [a.arg for a in f.args.args][1:2][0] if len(f.args.args) > 1 else 'ARG0'):
+                    r = cls.find_method(cv.func.attr)
+                    if r is not None and r[1] is not f:
+                        s2 = dispatch_summary(r[1], cls, _depth + 1)
+                        if s2 and any(e[0] for e in s2):
+                            sub = (s2, cv is val)
+                            break
+        if sub is not None:
+            s2, is_ret = sub
+            # the caller rejects the step's "not supported" answer (None) itself:  lines = self.<step>(..); if lines is None: raise ...
+            rejects_none = any(q.outcome[0] == 'raise' and any(c_[1] and c_[0].endswith(' is None') for c_ in q.conds) for q in ps)
+            if p.outcome[0] == 'raise' and any(c_[1] and c_[0].endswith(' is None') for c_ in p.conds):
+                continue          # accounted for with the step's None entry below
+            for n2, u2, k2, v2, p2 in s2:
+                none_ = v2 is not None and isinstance(v2, ast.Constant) and v2.value is None
+                if none_ and k2 == 'return' and not n2 and rejects_none:
+                    out.append((frozenset(names) | n2, user or u2, 'raise', None, p2))
+                elif k2 == 'raise' or is_ret:
+                    out.append((frozenset(names) | n2, user or u2, k2, v2, p2))
+                else:
+                    out.append((frozenset(names) | n2, user or u2, p.outcome[0], v2 if v2 is not None else val, p))
+            continue
         out.append((frozenset(names), user, p.outcome[0], val, p))
     return out
 
